@@ -14,10 +14,12 @@ import (
 	"strconv"
 	"strings"
 	"sync"
+	"sync/atomic"
 	"testing"
 	"time"
 
 	"github.com/Query-farm/vgi-rpc-go/vgirpc"
+	"github.com/apache/arrow-go/v18/arrow"
 	"pgregory.net/rapid"
 
 	"verifharness/lib"
@@ -53,7 +55,7 @@ type c29Slot struct {
 
 type c29Op struct {
 	ID        string   `json:"id"`
-	Kind      string   `json:"kind"` // open | use | delete | sleep | drain | shutdown
+	Kind      string   `json:"kind"` // open | use | delete | sleep | drain | shutdown | stream-init | stream-continue
 	Slot      int      `json:"slot"`
 	Ident     int      `json:"ident"`
 	Worker    int      `json:"worker"`
@@ -64,7 +66,15 @@ type c29Op struct {
 	Hold      *c29Cond `json:"hold,omitempty"`  // the handler blocks until this holds
 	After     *c29Cond `json:"after,omitempty"` // the client sends only after this holds
 	SleepMs   int      `json:"sleep_ms,omitempty"`
-	Why       string   `json:"why,omitempty"` // template that produced the op (classification only)
+	// stream ops: "stream-init" posts /{Method}/init bearing the session; its init handler and every
+	// Produce/Exchange turn record an interval on the session state. Turn k of the stream may be held on a gate
+	// (TurnHolds[k], Op "" = none). "stream-continue" posts /{Method}/exchange with the cursor and call token of
+	// stream Stream (the id of its stream-init op) and the session header.
+	Method    string    `json:"method,omitempty"` // s29_prod | s29_exch
+	Turns     int       `json:"turns,omitempty"`  // producer: emits this many batches, then finishes
+	TurnHolds []c29Cond `json:"turn_holds,omitempty"`
+	Stream    string    `json:"stream,omitempty"`
+	Why       string    `json:"why,omitempty"` // template that produced the op (classification only)
 }
 
 type c29Case struct {
@@ -122,7 +132,7 @@ func genC29(t *rapid.T) c29Case {
 	g := &c29Gen{t: t, c: &c}
 	nt := rapid.IntRange(1, 4).Draw(t, "ntemplates")
 	for i := 0; i < nt; i++ {
-		switch k := rapid.IntRange(0, 15).Draw(t, "template"); {
+		switch k := rapid.IntRange(0, 21).Draw(t, "template"); {
 		case k < 3: // a second request arrives while the first holds the session and then closes it
 			s := g.slot(true, false)
 			x, y := g.newClient(), g.newClient()
@@ -266,6 +276,58 @@ func genC29(t *rapid.T) c29Case {
 				g.add(o, g.own(ns, "use"))
 			}
 			g.add(x, g.own(s, "use"))
+		case k < 21: // a stream call bearing the session: another request arrives while its init handler or one of its turns holds the session
+			s := g.slot(true, false)
+			x, y := g.newClient(), g.newClient()
+			method := []string{"s29_prod", "s29_prod", "s29_exch"}[rapid.IntRange(0, 2).Draw(t, "smethod")]
+			nturns := rapid.IntRange(1, 3).Draw(t, "sturns")
+			ncont := rapid.IntRange(0, nturns).Draw(t, "scont")
+			// which stage holds: -1 = init handler, k = turn k. A producer's turn 0 runs inside the /init request.
+			lo := -1
+			hi := ncont
+			if method == "s29_exch" {
+				hi = ncont - 1 // an exchange's turn k runs in continuation k+1
+			}
+			if hi < lo {
+				hi = lo
+			}
+			stage := rapid.IntRange(lo, hi).Draw(t, "sstage")
+			yID := fmt.Sprintf("c%d.0", y)
+			init := g.own(s, "stream-init")
+			init.Method, init.Turns, init.Why = method, nturns, "stream"
+			hold := c29Cond{Op: yID, Ev: "sent", DelayUs: g.delay()}
+			if stage < 0 {
+				init.Hold = &hold
+			} else {
+				init.TurnHolds = make([]c29Cond, stage+1)
+				init.TurnHolds[stage] = hold
+			}
+			xID := g.add(x, init)
+			for j := 0; j < ncont; j++ {
+				cont := g.own(s, "stream-continue")
+				cont.Method, cont.Stream, cont.Why = method, xID, "stream"
+				g.add(x, cont)
+			}
+			stageKey := xID + "#init"
+			if stage >= 0 {
+				stageKey = fmt.Sprintf("%s#t%d", xID, stage)
+			}
+			other := g.own(s, []string{"use", "use", "delete"}[rapid.IntRange(0, 2).Draw(t, "sother")])
+			other.Why = "stream"
+			other.ThenClose = other.Kind == "use" && rapid.IntRange(0, 3).Draw(t, "sclose") == 0
+			other.After = &c29Cond{Op: stageKey, Ev: "handler"}
+			g.add(y, other)
+			g.add(y, g.own(s, "use"))
+			if rapid.Bool().Draw(t, "sforeign") {
+				f := g.own(s, "stream-init")
+				f.Method, f.Turns, f.Why = method, 1, "stream-foreign"
+				if rapid.Bool().Draw(t, "sfhow") {
+					f.Ident = (f.Ident + 1) % c.Idents
+				} else {
+					f.Garble = rapid.IntRange(1, 640).Draw(t, "sfbit")
+				}
+				g.add(g.newClient(), f)
+			}
 		default: // open inside the history: plain, without Accept, panicking after opening, slow
 			o := g.newClient()
 			ns := g.slot(false, rapid.IntRange(0, 3).Draw(t, "pshort") == 0)
@@ -335,7 +397,10 @@ func (s *c29State) Close() error {
 }
 
 type c29Run struct {
+	id      int64
 	c       c29Case
+	streams map[string][2]string // stream-init op id -> (cursor, call token); guarded by mu
+	turnNo  map[string]int       // stream-init op id -> next turn index; guarded by mu
 	mu      sync.Mutex
 	events  []c29Event
 	chans   map[string]chan struct{}
@@ -464,16 +529,120 @@ func (rc *c29Run) handler(_ context.Context, ctx *vgirpc.CallContext, p lib.Scri
 	panic("harness: unknown act " + s.Act)
 }
 
+// ---- stream calls bearing a session ----
+
+var (
+	c29Runs   sync.Map // run id -> *c29Run (stream states travel through gob tokens, so they carry an id, not a pointer)
+	c29RunSeq atomic.Int64
+)
+
+// c29Stream is the (gob-serialised) state of both scripted stream methods.
+type c29Stream struct {
+	RunID int64
+	Op    string // id of the stream-init op
+	Turns int
+	Pos   int
+	Holds []c29Cond
+}
+
+// stage records one interval of user code of a call bearing a session: the
+// init handler ("<op>#init") or turn k ("<op>#t<k>") of a stream.
+func c29Stage(rc *c29Run, ctx *vgirpc.CallContext, actor string, hold *c29Cond) {
+	cur := ctx.Session()
+	if cur == nil {
+		rc.rec(actor, "nosession", -1, "")
+		return
+	}
+	st, ok := cur.(*c29State)
+	if !ok || st.rc != rc {
+		rc.rec(actor, "hstart", -2, "foreign-state-object")
+		return
+	}
+	rc.rec(actor, "hstart", st.slot, "use")
+	rc.signal(actor, "handler")
+	defer rc.rec(actor, "hend", st.slot, "use")
+	if hold != nil && hold.Op != "" {
+		rc.wait(hold)
+	}
+}
+
+func (s *c29Stream) turn(ctx *vgirpc.CallContext) (pos int) {
+	pos = s.Pos
+	s.Pos++
+	v, ok := c29Runs.Load(s.RunID)
+	if !ok {
+		return
+	}
+	var hold *c29Cond
+	if pos < len(s.Holds) {
+		hold = &s.Holds[pos]
+	}
+	c29Stage(v.(*c29Run), ctx, fmt.Sprintf("%s#t%d", s.Op, pos), hold)
+	return
+}
+
+type c29Prod struct{ S c29Stream } // named field: gob skips an embedded field whose type name is unexported
+
+func (s *c29Prod) Produce(_ context.Context, out *vgirpc.OutputCollector, ctx *vgirpc.CallContext) error {
+	pos := s.S.turn(ctx)
+	if pos >= s.S.Turns {
+		return out.Finish()
+	}
+	return out.Emit(lib.MakeOut(lib.OutSchema, int64(pos), 1, 0))
+}
+
+type c29Exch struct{ S c29Stream }
+
+func (s *c29Exch) Exchange(_ context.Context, _ arrow.RecordBatch, out *vgirpc.OutputCollector, ctx *vgirpc.CallContext) error {
+	pos := s.S.turn(ctx)
+	return out.Emit(lib.MakeOut(lib.OutSchema, int64(pos), 1, 0))
+}
+
+func init() {
+	vgirpc.RegisterStateType(&c29Prod{})
+	vgirpc.RegisterStateType(&c29Exch{})
+}
+
+type c29StreamScript struct {
+	Op        string    `json:"op"`
+	Turns     int       `json:"turns"`
+	Hold      *c29Cond  `json:"hold,omitempty"`
+	TurnHolds []c29Cond `json:"turn_holds,omitempty"`
+}
+
+func (rc *c29Run) streamInit(exchange bool) func(context.Context, *vgirpc.CallContext, lib.ScriptParams) (*vgirpc.StreamResult, error) {
+	return func(_ context.Context, ctx *vgirpc.CallContext, p lib.ScriptParams) (*vgirpc.StreamResult, error) {
+		var sc c29StreamScript
+		if err := json.Unmarshal([]byte(p.Script), &sc); err != nil {
+			panic("harness: bad c29 stream script")
+		}
+		c29Stage(rc, ctx, sc.Op+"#init", sc.Hold)
+		base := c29Stream{RunID: rc.id, Op: sc.Op, Turns: sc.Turns, Holds: sc.TurnHolds}
+		res := &vgirpc.StreamResult{OutputSchema: lib.OutSchema}
+		if exchange {
+			res.State, res.InputSchema = &c29Exch{base}, lib.InSchema
+		} else {
+			res.State = &c29Prod{base}
+		}
+		return res, nil
+	}
+}
+
+var c29Empty = arrow.NewSchema(nil, nil)
+
 var c29Key = []byte("c29-shared-token-key-0123456789abcdef")
 
 func c29IdentName(i int) string { return []string{"", "alice", "bob", "carol"}[i] }
 
 func newC29Run(c c29Case) *c29Run {
-	rc := &c29Run{c: c, chans: map[string]chan struct{}{}, tokens: map[int]string{}}
+	rc := &c29Run{id: c29RunSeq.Add(1), c: c, chans: map[string]chan struct{}{}, tokens: map[int]string{}, streams: map[string][2]string{}, turnNo: map[string]int{}}
+	c29Runs.Store(rc.id, rc)
 	for w := 0; w < c.Workers; w++ {
 		srv := vgirpc.NewServer()
 		srv.SetServerID(fmt.Sprintf("worker-%d", w))
 		vgirpc.Unary(srv, "s_op", rc.handler)
+		vgirpc.Producer(srv, "s29_prod", lib.OutSchema, rc.streamInit(false))
+		vgirpc.Exchange(srv, "s29_exch", lib.OutSchema, lib.InSchema, rc.streamInit(true))
 		hs, err := vgirpc.NewHttpServerWithKey(srv, c29Key)
 		if err != nil {
 			panic(err)
@@ -485,6 +654,7 @@ func newC29Run(c c29Case) *c29Run {
 			return vgirpc.Anonymous(), nil
 		})
 		hs.EnableSticky(30 * time.Second)
+		hs.SetProducerBatchLimit(1) // one Produce turn per HTTP request, so a producer has continuation turns
 		rc.workers = append(rc.workers, hs)
 	}
 	return rc
@@ -553,7 +723,37 @@ func (rc *c29Run) do(op c29Op) (res c29Result) {
 	}
 	h := rc.workers[op.Worker]
 	var resp lib.HTTPResp
-	if op.Kind == "delete" {
+	streamKey := ""
+	if op.Kind == "stream-init" || op.Kind == "stream-continue" {
+		var body []byte
+		path := "/" + op.Method + "/init"
+		if op.Kind == "stream-init" {
+			streamKey = op.ID
+			sc := c29StreamScript{Op: op.ID, Turns: op.Turns, Hold: op.Hold, TurnHolds: op.TurnHolds}
+			b, _ := json.Marshal(sc)
+			body = lib.BuildRequest(op.Method, lib.ScriptBatch(string(b)), lib.ReqOpts{RequestID: op.ID})
+		} else {
+			streamKey = op.Stream
+			rc.mu.Lock()
+			tk, ok := rc.streams[op.Stream]
+			rc.mu.Unlock()
+			if !ok || tk[0] == "" {
+				res.Skipped = true
+				return
+			}
+			path = "/" + op.Method + "/exchange"
+			keys, vals := []string{lib.KStreamState, lib.KCallState}, []string{tk[0], tk[1]}
+			if op.Method == "s29_exch" {
+				body = lib.EncodeStream(lib.InSchema, lib.WithMeta(lib.Int64Batch(lib.InSchema, 1), keys, vals))
+			} else {
+				body = lib.EncodeStream(c29Empty, lib.WithMeta(lib.EmptyBatch(c29Empty), keys, vals))
+			}
+		}
+		e := rc.rec(op.ID, "send", op.Slot, op.Kind)
+		res.SendSeq, res.SendTime = e.Seq, e.T
+		rc.signal(op.ID, "sent")
+		resp = lib.PostArrow(h, path, body, hdr)
+	} else if op.Kind == "delete" {
 		e := rc.rec(op.ID, "send", op.Slot, op.Kind)
 		res.SendSeq, res.SendTime = e.Seq, e.T
 		rc.signal(op.ID, "sent")
@@ -571,6 +771,34 @@ func (rc *c29Run) do(op c29Op) (res c29Result) {
 	res.Token = resp.Header.Get("VGI-Session")
 	if op.Kind != "delete" && resp.Decoded != nil {
 		if streams, err := lib.SplitStreams(resp.Decoded); err == nil {
+			cursor, call := "", ""
+			for _, st := range streams {
+				for _, b := range st.Batches {
+					if v, ok := b.Get(lib.KStreamState); ok {
+						cursor = v
+					}
+					if v, ok := b.Get(lib.KCallState); ok {
+						call = v
+					}
+				}
+			}
+			if streamKey != "" {
+				// the stage(s) this request was expected to run are over: release anyone waiting on them
+				rc.mu.Lock()
+				prev := rc.streams[streamKey]
+				if call == "" {
+					call = prev[1]
+				}
+				rc.streams[streamKey] = [2]string{cursor, call}
+				n := rc.turnNo[streamKey]
+				rc.turnNo[streamKey] = n + 1
+				rc.mu.Unlock()
+				// request n of a producer runs turn n (turn 0 inside /init); request n >= 1 of an exchange runs turn n-1
+				rc.signal(streamKey+"#init", "done")
+				if t := n - map[bool]int{true: 1, false: 0}[op.Method == "s29_exch"]; t >= 0 {
+					rc.signal(fmt.Sprintf("%s#t%d", streamKey, t), "done")
+				}
+			}
 			for _, st := range streams {
 				for _, b := range st.Batches {
 					switch b.Kind() {
@@ -646,6 +874,7 @@ func runC29(c c29Case) (out lib.Outcome) {
 	_, raceBefore := raceLog()
 	defer func() { raceDelta(&out, "C29", raceBefore) }()
 	rc := newC29Run(c)
+	defer c29Runs.Delete(rc.id)
 	results := map[string]c29Result{}
 	ops := map[string]c29Op{}
 	var resMu sync.Mutex
@@ -710,7 +939,7 @@ func runC29(c c29Case) (out lib.Outcome) {
 		var pending []string
 		resMu.Lock()
 		for id, op := range ops {
-			if _, ok := results[id]; !ok && (op.Kind == "open" || op.Kind == "use" || op.Kind == "delete") {
+			if _, ok := results[id]; !ok && (op.Kind == "open" || op.Kind == "use" || op.Kind == "delete" || strings.HasPrefix(op.Kind, "stream-")) {
 				pending = append(pending, id)
 			}
 		}
@@ -983,6 +1212,36 @@ func judgeC29(c c29Case, ops map[string]c29Op, results map[string]c29Result, eve
 					}
 				}
 			}
+		case "stream-init", "stream-continue":
+			stages := 0
+			for actor, e := range hstart {
+				if strings.HasPrefix(actor, id+"#") || (op.Kind == "stream-continue" && strings.HasPrefix(actor, op.Stream+"#")) {
+					if op.Kind == "stream-init" {
+						stages++
+					}
+					if e.Slot != op.Slot {
+						out.Violate("C29/isolation-wrong-state", "stream %s presented slot %d's token and stage %s saw slot %d's state", id, op.Slot, actor, e.Slot)
+					}
+				}
+			}
+			if r.Foreign != "" {
+				out.Label("foreign-stream:" + r.Foreign)
+				if op.Kind == "stream-init" && stages > 0 {
+					out.Violate(lib.Keyf("C29", "isolation-handler-ran", r.Foreign), "stream-init %s presented slot %d's token as ident %d at worker %d (%s) and %d of its stages ran on the session state", id, op.Slot, op.Ident, op.Worker, r.Foreign, stages)
+				} else if r.ErrKind != "session_lost" {
+					out.Violate(lib.Keyf("C29", "isolation-not-session-lost", r.Foreign), "%s %s presented slot %d's token as ident %d at worker %d (%s): expected session_lost, got status %d kind %q msg %q",
+						op.Kind, id, op.Slot, op.Ident, op.Worker, r.Foreign, r.Status, r.ErrKind, lib.Short(r.ErrMsg, 120))
+				}
+				continue
+			}
+			switch {
+			case r.ErrKind == "":
+				out.Label(op.Kind + ":ok:" + op.Method)
+			case r.ErrKind == "session_lost":
+				out.Label(op.Kind + ":lost")
+			default:
+				out.Label(op.Kind + ":error")
+			}
 		case "delete":
 			if r.Foreign != "" {
 				out.Label("foreign-delete:" + r.Foreign)
@@ -1054,11 +1313,12 @@ var propC29 = lib.Prop[c29Case]{
 	ID: "C29",
 	Rule: "concurrent histories over 1-3 workers sharing a token key and 2-4 identities (one anonymous): session slots opened in a sequential prologue or inside the history (with/without VGI-Session-Accept, panicking after opening), " +
 		"client goroutines running use / slow use (handler held on a harness gate) / use-then-CloseSession / DELETE / wait-past-TTL / drain / shutdown, tokens presented by other identities, at other workers and bit-flipped; " +
+		"producer and exchange stream calls bearing the session (/init + /exchange continuations, producer batch limit 1) whose init handler and every Produce/Exchange turn record an interval on the session state and can be held on a gate while another request bearing the session is fired; " +
 		"barriers force 'second request arrives while the first holds the session', 'close completes while another waits', 'open after Drain returned'. Oracle: invariants over the recorded history (see DESIGN C29). " +
 		"Non-trivial: at least two requests bearing the same session overlapped in time.",
 	Gen:          genC29,
 	Run:          runC29,
-	Essential:    []string{"overlap", "use:ok", "use:lost", "foreign:ident", "foreign:garbled", "open:while-draining", "delete:204", "expired:sent-after-ttl", "open:ok"},
+	Essential:    []string{"overlap", "use:ok", "use:lost", "foreign:ident", "foreign:garbled", "open:while-draining", "delete:204", "expired:sent-after-ttl", "open:ok", "stream-init:ok:s29_prod", "stream-init:ok:s29_exch", "stream-continue:ok:s29_prod", "stream-continue:ok:s29_exch"},
 	EssentialMin: 60,
 	Assumptions: []string{
 		"schedules are sampled (random + barrier-forced), not enumerated; every barrier has a 1.5 s fallback so a slow machine can only miss an interleaving",
